@@ -426,8 +426,44 @@ def o175(ctx):
             ctx.count(1)
 
 
+def o177(ctx):
+    """the module-level wrappers write the very object they return: the file is produced by Mdoc.write of the updated object"""
+    src = lambda n: " ".join(ast.unparse(n).split())
+    for q in ("mdoc.remove_images", "mdoc.sort_mdoc_by_tilt_angles"):
+        m, fn = ctx.prog.func(q)
+        ctx.touched(q)
+        rets = [r_.value for r_ in ast.walk(fn) if isinstance(r_, ast.Return) and r_.value is not None]
+        if len(rets) != 1 or not isinstance(rets[0], ast.Name):
+            raise Unsupported(f"{q}: returned object not recognised", fn)
+        obj = rets[0].id
+        writes = [c for c in ast.walk(fn) if isinstance(c, ast.Call) and isinstance(c.func, ast.Attribute) and c.func.attr == "write"
+                  and isinstance(c.func.value, ast.Name) and c.func.value.id == obj]
+        others = [c for c in ast.walk(fn) if isinstance(c, ast.Call) and (
+            (isinstance(c.func, ast.Name) and c.func.id == "open" and any(isinstance(a_, ast.Constant) and isinstance(a_.value, str) and
+                                                                           set(a_.value) & set("wax+") for a_ in list(c.args[1:]) + [k.value for k in c.keywords]))
+            or (isinstance(c.func, ast.Attribute) and c.func.attr in ("writelines", "write_text", "to_csv", "savetxt", "copyfile", "copy")))]
+        ctx.count(1, {"function": q, "written by": [src(c)[:60] for c in writes], "other sinks": [src(c)[:60] for c in others]})
+        if others:
+            raise Unsupported(f"{q}: the output file is (also) produced by other means than {obj}.write(...): what it holds is not decided "
+                              "by the rules for Mdoc.write", others[0])
+        if len(writes) != 1:
+            ctx.finding(q, fn, f"with an output file the updated object itself must be written once ({obj}.write(output_file, ...))", fn, m)
+            continue
+        w = writes[0]
+        ctx.count(1)
+        a0 = w.args[0] if w.args else kwarg(w, "out_path")
+        if not (isinstance(a0, ast.Name) and a0.id == "output_file"):
+            ctx.finding(q, w, "the caller's output_file must be the path written", w, m)
+        upd = [c for c in ast.walk(fn) if isinstance(c, ast.Call) and isinstance(c.func, ast.Attribute) and isinstance(c.func.value, ast.Name)
+               and c.func.value.id == obj and c.func.attr in ("remove_images", "sort_by_tilt")]
+        ctx.count(1)
+        if not upd or min(c.lineno for c in upd) > w.lineno:
+            ctx.finding(q, w, "the object must be updated (images removed / sorted) before it is written", w, m)
+
+
 def _obligations():
     return [
+        Obligation("O17.7", "mdoc wrappers (remove_images, sort_mdoc_by_tilt_angles) write the updated object they return, through Mdoc.write", o177, floor=6),
         Obligation("O17.6", "loaders: tlt_load passes arrays / lists through and returns every file value (sorted only on request); total_dose_load hands doses back as given (shared with C09)", lambda ctx: (_c09.o96(ctx), _c09.o98(ctx)), floor=12),
         Obligation("O17.1", "library calls of loaders, mdoc and wedge-list builders exist in the installed pandas", o171, floor=15),
         Obligation("O17.2", "defocus readers: U,V x 1e-4, mean=(U+V)/2, same columns; ctffind4 header skipped", o172, floor=15),
